@@ -1,0 +1,11 @@
+//go:build verif
+
+package oned
+
+// VerifConvertUPCEtoUPCA exposes the UPC-E expansion routine (monitor use only).
+func VerifConvertUPCEtoUPCA(upce string) string { return convertUPCEtoUPCA(upce) }
+
+// VerifStandardUPCEANChecksum exposes the mod-10 routine (monitor use only).
+func VerifStandardUPCEANChecksum(s string) (int, error) {
+	return upceanReader_getStandardUPCEANChecksum(s)
+}
